@@ -568,26 +568,32 @@ pub fn check_c11(spec: &GraphSpec, b: &Built, f: &BuildFacts) -> Vec<Violation> 
         }
     }
     // one edge per ordered pair
-    for (i, e) in f.built.iter().enumerate() {
-        if f.built[..i].iter().any(|d| d.0 == e.0 && d.1 == e.1) {
+    let mut built_ix: std::collections::HashMap<(usize, usize), Kind> = std::collections::HashMap::new();
+    for e in f.built.iter() {
+        if built_ix.insert((e.0, e.1), e.2).is_some() {
             out.push(v("C11", "duplicate-edge", format!("two edges {}->{}", e.0, e.1)));
         }
     }
-    // user edges kept with their kind
+    // user edges kept with their kind (the first built edge of a pair counts, as before)
+    let mut first_built: std::collections::HashMap<(usize, usize), Kind> = std::collections::HashMap::new();
+    for e in f.built.iter() {
+        first_built.entry((e.0, e.1)).or_insert(e.2);
+    }
     for u in &f.user {
-        match f.built.iter().find(|e| e.0 == u.0 && e.1 == u.1) {
+        match first_built.get(&(u.0, u.1)) {
             None => out.push(v("C11", "user-edge-lost", format!("edge {}->{} missing", u.0, u.1))),
-            Some(e) if e.2 != u.2 => out.push(v(
+            Some(k) if *k != u.2 => out.push(v(
                 "C11",
                 "user-edge-kind-changed",
-                format!("edge {}->{} has kind {:?}, user gave {:?}", u.0, u.1, e.2, u.2),
+                format!("edge {}->{} has kind {:?}, user gave {:?}", u.0, u.1, k, u.2),
             )),
             _ => {}
         }
     }
     // additional edges: only Data, only between conflicting functions
+    let user_pairs: std::collections::HashSet<(usize, usize)> = f.user.iter().map(|u| (u.0, u.1)).collect();
     for e in &f.built {
-        if f.user.iter().any(|u| u.0 == e.0 && u.1 == e.1) {
+        if user_pairs.contains(&(e.0, e.1)) {
             continue;
         }
         if e.2 != Kind::Data {
@@ -1535,4 +1541,139 @@ pub fn exhaustive(prop: &str, max_n: usize, with_access: bool, workers: usize) -
         ),
         samples: samples.into_inner().unwrap(),
     }
+}
+
+// ------------------------------------------------------------------ big builds
+/// Instances on which a single `build()` performs more than 2^16 (thorough: 2^17)
+/// pair look-ups, with most conflicting pairs joined *directly* by a user edge:
+/// counters, generation stamps and scratch indices narrower than `usize` inside
+/// `build()` wrap here and nowhere in the random tier.
+///
+/// * bipartite: `a` writers of distinct types, `b` readers of all those types, an
+///   edge from every writer to every reader (`a*b` conflicting pairs, all joined);
+/// * window: one cluster of `s` functions all writing one type, user edges i -> j
+///   for 0 < j - i <= w in a hidden order (`s(s-1)/2` conflicting pairs).
+pub fn big_build_specs(thorough: bool, seed: u64) -> Vec<(String, GraphSpec)> {
+    let mut out = vec![];
+    let mut x = seed.wrapping_mul(0x9E37_79B9_7F4A_7C15) | 1;
+    let mut next = move || {
+        x ^= x << 13;
+        x ^= x >> 7;
+        x ^= x << 17;
+        x
+    };
+    let mut bip: Vec<(usize, usize)> = vec![(80, 820), (64, 1025 + (seed % 7) as usize), (72, 911 + (seed % 5) as usize)];
+    if thorough {
+        bip.extend([(80, 1640), (80, 830), (77, 852), (60, 1100)]);
+    }
+    for (a, b) in bip {
+        let n = a + b;
+        // insertion order: writers and readers interleaved by a seed-dependent stride
+        let mut order: Vec<usize> = (0..n).collect();
+        for i in (1..n).rev() {
+            let j = (next() % (i as u64 + 1)) as usize;
+            order.swap(i, j);
+        }
+        // order[k] = logical node placed at insertion index k; logical < a = writer
+        let mut id_of = vec![0usize; n];
+        for (k, l) in order.iter().enumerate() {
+            id_of[*l] = k;
+        }
+        let mut fns: Vec<TestFn> = (0..n).map(|id| TestFn { id, reads: vec![], writes: vec![] }).collect();
+        for l in 0..n {
+            let id = id_of[l];
+            if l < a {
+                fns[id].writes = vec![l as u8];
+            } else {
+                fns[id].reads = (0..a as u8).collect();
+            }
+        }
+        let mut edges = Vec::with_capacity(a * b);
+        for w in 0..a {
+            for r in a..n {
+                let k = if (w + r) % 3 == 0 { Kind::Contains } else { Kind::Logic };
+                edges.push((id_of[w], id_of[r], k));
+            }
+        }
+        for i in (1..edges.len()).rev() {
+            let j = (next() % (i as u64 + 1)) as usize;
+            edges.swap(i, j);
+        }
+        out.push((format!("bipartite conflict graph: {a} writers x {b} readers, {} directly joined conflicting pairs", a * b), GraphSpec { fns, edges, batches: vec![] }));
+    }
+    let mut win: Vec<(usize, usize)> = vec![(364 + (seed % 9) as usize, 24)];
+    if thorough {
+        win.extend([(380, 12), (420, 32), (515, 16)]);
+    }
+    for (s, w) in win {
+        let mut order: Vec<usize> = (0..s).collect();
+        for i in (1..s).rev() {
+            let j = (next() % (i as u64 + 1)) as usize;
+            order.swap(i, j);
+        }
+        let fns: Vec<TestFn> = (0..s).map(|id| TestFn { id, reads: vec![], writes: vec![0] }).collect();
+        let mut edges = vec![];
+        for i in 0..s {
+            for j in i + 1..(i + 1 + w).min(s) {
+                let k = if (i + j) % 2 == 0 { Kind::Contains } else { Kind::Logic };
+                edges.push((order[i], order[j], k));
+            }
+        }
+        for i in (1..edges.len()).rev() {
+            let j = (next() % (i as u64 + 1)) as usize;
+            edges.swap(i, j);
+        }
+        out.push((format!("one cluster of {s} mutually conflicting functions, user edges within a window of {w}"), GraphSpec { fns, edges, batches: vec![] }));
+    }
+    out
+}
+
+pub struct BigBuilds {
+    pub instances: u64,
+    pub max_n: usize,
+    pub max_conflicting_pairs: u64,
+    pub violation: Option<(Violation, BuildCase)>,
+    pub samples: Vec<Value>,
+    pub hashes: Vec<u64>,
+}
+
+pub fn big_builds(prop: &str, thorough: bool, seed: u64) -> BigBuilds {
+    use std::sync::Mutex;
+    let specs = big_build_specs(thorough, seed);
+    let res: Mutex<BigBuilds> = Mutex::new(BigBuilds { instances: 0, max_n: 0, max_conflicting_pairs: 0, violation: None, samples: vec![], hashes: vec![] });
+    std::thread::scope(|sc| {
+        for (desc, spec) in specs {
+            let res = &res;
+            sc.spawn(move || {
+                let case = BuildCase { spec, fail_pos: 0, mutation: None, labels: vec![], walks: vec![] };
+                let ev = eval_build_case(prop, &case);
+                let n = case.spec.n();
+                let pairs = ev.facts.as_ref().map(|f| f.expect_data.len() as u64).unwrap_or(0);
+                let conflicting = {
+                    let f = &case.spec.fns;
+                    let mut c = 0u64;
+                    for i in 0..n {
+                        for j in i + 1..n {
+                            if crate::model::conflict(&f[i], &f[j]) {
+                                c += 1;
+                            }
+                        }
+                    }
+                    c
+                };
+                let mut r = res.lock().unwrap();
+                r.instances += 1;
+                r.max_n = r.max_n.max(n);
+                r.max_conflicting_pairs = r.max_conflicting_pairs.max(conflicting);
+                r.hashes.push(hash_of(&case.spec));
+                r.samples.push(json!({"family": desc, "functions": n, "user_edge_calls": case.spec.edges.len(), "conflicting_pairs": conflicting, "expected_data_edges": pairs, "violations": ev.violations.len()}));
+                if r.violation.is_none() {
+                    if let Some(v) = ev.violations.into_iter().find(|v| v.prop == prop) {
+                        r.violation = Some((v, case));
+                    }
+                }
+            });
+        }
+    });
+    res.into_inner().unwrap()
 }
